@@ -1,4 +1,5 @@
 """C06 - Transit delivers exactly the records sent, or drops the connection."""
+import z3
 from pyvc.contract import Contract
 from pyvc.runner import ContractTask
 from pyvc.values import *   # noqa
@@ -216,6 +217,24 @@ CONTRACTS = [
                                          f"r == at_iter({R})[0] and {R} == at_iter({R})[1:]"]}},
              note="consumer mode keeps the order: records that were queued before the consumer was attached are written to it "
                   "first, oldest first, one write each (ghost gw); only then do live records go to it directly (recordReceived)"),
+    BodyLemma("lemma:consumer_attach_keeps_order_when_the_producer_is_resumed_at_once", T + "Connection.connectConsumer",
+              props=[PROP], params={"consumer": "obj[Consumer]", "expected": "opt[int]"},
+              self_fields={**F_QUEUES, **F_CONSUMER}, modifies=M_QUEUES + M_CONSUMER,
+              requires=["self._consumer is None", f"len({W}) == 0", INV_CONSUMER],
+              internal_ensures=[("every-record-queued-at-attach-time-is-written-before-any-live-one",
+                                 f"old({R}) + reentered() == gw + {R}")],
+              loops={0: {"header": "self._consumer and self._inbound_records",
+                         "ghost_init": {"gw": "empty_seq('bytes')", "w0": "bcalls('write')"},
+                         "ghost_update": {"gw": "gw + [r]"},
+                         "invariant": [f"at_entry({R}) == gw + {R}", INV_CONSUMER, f"{W} == at_entry({W})",
+                                       "w0 == ite(expected == 0, 1, 0)"],
+                         "body_ensures": ["iter_bcall_names()[0] == 'write'",
+                                          f"iter_bcall_arg('write', 0, 0) == at_iter({R})[0]",
+                                          f"r == at_iter({R})[0] and {R} == at_iter({R})[1:]"]}},
+              note="the ordering hazard the code comments on: consumer.registerProducer() may synchronously resume the producer, "
+                   "the transport may then deliver a chunk, and recordReceived() runs re-entrantly (modelled: zero or one live "
+                   "record arrives during registerProducer; recordReceived/_writeToConsumer are executed, not summarised). "
+                   "Nothing may reach the consumer before the drain loop except the zero-length kick for expected == 0 (w0)"),
     # ------------------------------------------------------------------ keys: one per direction, same on both ends
     Contract(T + "Common._sender_record_key", props=[PROP], params={}, self_fields={"is_sender": "bool", "_transit_key": "bytes"},
              returns="bytes", raises_exactly={"AssertionError": "len(self._transit_key) == 0"},
@@ -366,8 +385,35 @@ def regf(exclude=()):
     return reg
 
 
+REENTRANT = "lemma:consumer_attach_keeps_order_when_the_producer_is_resumed_at_once"
+
+
+def regf_reentrant():
+    """registerProducer() of the consumer resumes the producer at once: a live record may be received re-entrantly"""
+    reg = regf(exclude=(T + "Connection.recordReceived", T + "Connection._writeToConsumer",
+                        T + "Connection.disconnectConsumer"))
+
+    def register_producer(it, recv, meth, args, kwargs, fr):
+        it.ctx.event("bcall", recv.cls if isinstance(recv, VObj) else "?", meth, list(args), dict(kwargs))
+        producer = it.force(args[0])
+        if it.ctx.choose([z3.BoolVal(True), z3.BoolVal(True)], "producer-resumed-at-once") == 1:
+            r = it.fresh("bytes", "live_record")
+            it.ctx.event("reentered", r)
+            it.call(it.getattr(producer, "recordReceived"), [r], {})
+        return NONE
+
+    reg.boundary["Consumer.registerProducer"] = register_producer
+
+    def reentered(it):
+        rs = [e[1][0] for e in it.ctx.trace if e[0] == "reentered"]
+        return VSeq(to_z3(VList(rs), parse_type("seq[bytes]")), "bytes")
+
+    reg.spec_funcs["reentered"] = reentered
+    return reg
+
+
 def tasks():
-    return [ContractTask(c, regf) for c in CONTRACTS]
+    return [ContractTask(c, regf_reentrant if c.target == REENTRANT else regf) for c in CONTRACTS]
 
 
 TRUSTED = TRUSTED_LIB
